@@ -686,8 +686,16 @@ impl Body for SkewBody {
         self.name.to_string()
     }
     fn launch(&self, dir: &Path) -> Launched {
-        let db = OptimisticTxDatabase::builder(dir).worker_threads_unchecked(0).open().expect("open");
+        // "[worker-flush]": fjall's own worker flushes another keyspace meanwhile (a new tree version raises the visible
+        // seqno outside the journal lock: transactions must still begin and validate against whole commits only)
+        let with_worker = self.name.contains("[worker-flush]");
+        let db = OptimisticTxDatabase::builder(dir).worker_threads_unchecked(usize::from(with_worker)).open().expect("open");
         let kss = [db.keyspace("x", KeyspaceCreateOptions::default).expect("ks"), db.keyspace("y", KeyspaceCreateOptions::default).expect("ks")];
+        if with_worker {
+            let z = db.keyspace("z", KeyspaceCreateOptions::default).expect("ks");
+            z.inner().insert("m", "0").expect("init");
+            z.inner().rotate_memtable().expect("rotate");
+        }
         for (i, m) in initial_map().iter().enumerate() {
             for (k, v) in m {
                 kss[i].inner().insert(k, v).expect("init");
@@ -780,6 +788,7 @@ pub fn bodies(tier: &str) -> Vec<BodySpec> {
         b(SkewBody { name: "write skew: get a/ins b || get b/ins a", txs: vec![vec![Step::Get("a"), Step::Insert("b", "1")], vec![Step::Get("b"), Step::Insert("a", "1")]] }, if q { 2 } else { 3 }, if q { 6.0 } else { 300.0 }),
         b(SkewBody { name: "lost update: fetch_update a || fetch_update a", txs: vec![vec![Step::FetchUpdate("a", "append")], vec![Step::FetchUpdate("a", "append")]] }, if q { 2 } else { 3 }, if q { 5.0 } else { 300.0 }),
     ];
+    v.push(b(SkewBody { name: "2-key commit || begin/read both/write/commit || worker flush [worker-flush] [focus:commit-path]", txs: vec![vec![Step::Insert("a", "1"), Step::Insert("b", "1")], vec![Step::Get("a"), Step::Get("b"), Step::Insert("ab", "1")]] }, 2, if q { 5.0 } else { 300.0 }));
     if !q {
         v.push(b(SkewBody { name: "3 tx: scan/ins || ins || get/rem", txs: vec![vec![Step::Iter, Step::Insert("ab", "1")], vec![Step::Insert("a", "1")], vec![Step::Get("a"), Step::Remove("b")]] }, 2, 300.0));
     }
